@@ -70,6 +70,7 @@ package internal
 //@   ensures valid ==> dur >= 0                                                                 # name: nonneg
 //@   ensures !valid ==> dur == 0                                                                # name: zero-when-invalid
 //@   loop 0 invariant 0 <= i && i <= len(r) && (forall j int :: 0 <= j && j < i ==> r[j] >= '0' && r[j] <= '9')
+//@   loop 0 decreases len(r) - i                                                      # name: digit-scan-terminates   props: C10 C12
 
 //@ func (RawTime).Value
 //@   property C01
@@ -878,6 +879,7 @@ package internal
 //@   pure
 //@   ensures result == np(s, len(s))                                         # name: equals-normal-form
 //@   loop 0 invariant 0 <= i && i <= len(s) && sbc[&b] == np(s, i)
+//@   loop 0 decreases len(s) - i                                                      # name: percent-normalisation-terminates   props: C10 C03
 
 // ---- C03: composition of the store key from the (net/url-normalised) URL ---------------------------
 // host / port split of an authority (copied from net/url: numeric port after the last colon, one pair of
